@@ -157,6 +157,16 @@ add("C08", "model_checking",
     "membership tests on parameter dictionaries stay real. Populations are the library universe.",
     "exhaustive exploration of rule control-flow paths x change-date classes under a recording parameter proxy, plus bounded population runs", "2/C08")
 
+add("C13", "model_checking",
+    "Exhaustive over every name with a time suffix (with or without group suffix) among the nodes and data columns of the default-target graph x "
+    "change dates x household sets: all four unit variants are requested together and must differ exactly by 12 / (365.25/7) / 365.25 per year "
+    "(1e-12 relative) and must all be available; every timed float input is supplied in each of the three other units and all nodes must be "
+    "reproduced (1e-9 relative, generic values, rounding off; integers, booleans, id partitions exactly); automatic group sums of all four units "
+    "equal the group sums of the individual-level variants; the 12 converters are compared with exact Fractions incl. all round trips.",
+    "Inputs supplied in another unit are given generic (non-threshold) values because a unit conversion changes last bits, which thresholds and "
+    "floor/ceil steps inside rules would amplify; that amplification is not claimed to be absent.",
+    "bounded exhaustive enumeration of timed names x units x dates with algebraic oracles and a differential oracle", "2/C13")
+
 NOT_APPLICABLE = []
 
 
